@@ -40,12 +40,16 @@ inductive Cell
 
 abbrev Cols := List (String × List Cell)
 
-/-- `data.setdefault(k, list()).append(v)` -/
-def append (d : Cols) (k : String) (v : Cell) : Cols :=
-  if d.any (·.1 = k) then d.map fun (k', vs) => if k' = k then (k', vs ++ [v]) else (k', vs)
-  else d ++ [(k, [v])]
+/-- `data.setdefault(k, list()).append(v)`: the column of `k` grows by `v`; a new key starts a column
+at the end of the dictionary -/
+def append : Cols → String → Cell → Cols
+  | [], k, v => [(k, [v])]
+  | (k', vs) :: rest, k, v => if k' = k then (k', vs ++ [v]) :: rest else (k', vs) :: append rest k v
 
-def col (d : Cols) (k : String) : Option (List Cell) := (d.find? (·.1 = k)).map (·.2)
+/-- `data[k]` (`none`: KeyError) -/
+def col : Cols → String → Option (List Cell)
+  | [], _ => Option.none
+  | (k', vs) :: rest, k => if k' = k then some vs else col rest k
 
 def setCol (d : Cols) (k : String) (vs : List Cell) : Cols :=
   if d.any (·.1 = k) then d.map fun (k', old) => if k' = k then (k', vs) else (k', old) else d ++ [(k, vs)]
@@ -143,6 +147,28 @@ structure St where
   epochs : List Epoch        -- one per kept record (for the time column)
   deriving Inhabited
 
+/-- the epoch line handler of the parser version in use -/
+def headOf (v2sys : Option Str) (vs : List (String × Str)) : Option Head :=
+  match v2sys with
+  | some s => head2 s vs
+  | Option.none => head3 vs
+
+/-- `_parse_obs_float` on the fields of one orbit line -/
+def addLine (ld : LineDef) (d : Cols) (line : Str) : Option Cols :=
+  (lineValues ld line).foldlM (fun d (kt : String × Str) => (floatField kt.2).map fun q => append d kt.1 (.num q)) d
+
+/-- lines 2.. of a record, numbered from 0 (record line number `i + 2`) -/
+def addLines (T : Tables) (d : Cols) (nl : List (Nat × Str)) : Option Cols :=
+  nl.foldlM (fun d (il : Nat × Str) =>
+    match T.lines.find? (fun (l : LineDef) => l.num = il.1 + 2) with
+    | Option.none => some d
+    | some ld => addLine ld d il.2) d
+
+/-- the columns after the epoch line of a kept record -/
+def addEpoch (d : Cols) (e : Epoch) (clock : List (String × Rat)) : Cols :=
+  clock.foldl (fun d (nq : String × Rat) => append d nq.1 (.num nq.2))
+    (append (append d "system" (.str e.system)) "satellite" (.str e.sat))
+
 /-- one record (its lines, in order) appended to the columns.
 `v2sys = some s` selects the RINEX 2 epoch line. -/
 def addRecord (T : Tables) (v2sys : Option Str) (st : St) (rec : List Str) : Option St :=
@@ -152,24 +178,12 @@ def addRecord (T : Tables) (v2sys : Option Str) (st : St) (rec : List Str) : Opt
     match T.lines.find? (fun (l : LineDef) => l.num = 1) with
     | Option.none => some st
     | some ld1 =>
-      let vs := lineValues ld1 l1
-      let h := match v2sys with
-        | some s => head2 s vs
-        | Option.none => head3 vs
-      match h with
+      match headOf v2sys (lineValues ld1 l1) with
       | Option.none => Option.none
       | some .skipHeaderLine => some st
       | some .skipSystem => some st
       | some (.ok e clock) =>
-        let d0 := clock.foldl (fun d (n, q) => append d n (.num q))
-          (append (append st.data "system" (.str e.system)) "satellite" (.str e.sat))
-        -- lines 2.. : `_parse_obs_float`
-        let numbered := (List.range rest.length).zip rest
-        (numbered.foldlM (fun d (i, line) =>
-          match T.lines.find? (fun (l : LineDef) => l.num = i + 2) with
-          | Option.none => some d
-          | some ld => (lineValues ld line).foldlM (fun d (k, t) => (floatField t).map fun q => append d k (.num q)) d)
-          d0).map fun d => ⟨d, st.epochs ++ [e]⟩
+        (addLines T (addEpoch st.data e clock) ((List.range rest.length).zip rest)).map fun d => ⟨d, st.epochs ++ [e]⟩
 
 /-- RINEX 3: a record ends before the next line that starts with a letter -/
 def splitV3Aux : List Str → List Str → List (List Str)
